@@ -195,6 +195,7 @@ func runC09(c *an.Ctx) {
 	ruleQ6(c)
 	ruleQ7(c)
 	ruleQ8Q10(c)
+	ruleTopoIndex(c, "Q11")
 }
 
 func fieldOwner(p *an.Prog, f *types.Var) string {
